@@ -172,6 +172,94 @@ def guardOK (k : Kind) (cs : List Const) (cur : Name → Option Int) : Bool :=
     | some v => decide (v - printed k c.val = 0)
     | none => false)
 
+/-- what the compiler says about one guard line `_ = x[Name-valueof]` (x a `[1]struct{}`): the index is a
+    constant expression of type T, so first of all it must be representable in T (`Name - 5 (constant -5 of
+    type T) overflows uint8`), then not negative (`must not be negative`), then below 1 (`index 2 out of
+    bounds [0:1]`) -/
+inductive GuardErr where
+  | none | undefined | overflows | negative | bounds
+  deriving DecidableEq, Repr
+
+def guardLine (k : Kind) (printedV : Int) (cur : Option Int) : GuardErr :=
+  match cur with
+  | .none => .undefined
+  | some v =>
+    let d := v - printedV
+    if !k.has d then .overflows else if d < 0 then .negative else if d = 0 then .none else .bounds
+
+/-- the first complaint in the guard function, in table (= source) order -/
+def guardFirst (k : Kind) (cs : List Const) (cur : Name → Option Int) : GuardErr :=
+  match cs with
+  | [] => .none
+  | c :: r => if guardLine k (printed k c.val) (cur c.name) = .none then guardFirst k r cur else guardLine k (printed k c.val) (cur c.name)
+
+/-! ## ParseFlags / make* (generator.go, make.go) -/
+
+/-- the enum flags as given on the command line -/
+structure FlagArgs where
+  bit : Bool
+  bitwise : Bool
+  json : Bool
+  text : Bool
+  sql : Bool
+  gorm : Bool
+  deriving DecidableEq, Repr
+
+/-- `Generator.flags` -/
+structure Flags where
+  bitwise : Bool
+  json : Bool
+  text : Bool
+  sql : Bool
+  gorm : Bool
+  deriving DecidableEq, Repr
+
+/-- `ParseFlags`: `-gorm` without `-sql` is fatal ("-gorm only works when -sql is enabled", exit 1, nothing
+    generated); `-bit` is an alias of `-bitwise` -/
+def parseFlags (a : FlagArgs) : Option Flags :=
+  if a.gorm && !a.sql then none else some ⟨a.bitwise || a.bit, a.json, a.text, a.sql, a.gorm⟩
+
+/-- the switches of the template data (`TmplData.Bitwise … Gorm`) -/
+structure TSwitches where
+  bitwise : Bool
+  json : Bool
+  text : Bool
+  sql : Bool
+  gorm : Bool
+  deriving DecidableEq, Repr
+
+/-- makeBitwize / makeJson / makeText / makeSQL: each copies its flag; `Gorm` is copied inside the -sql branch only -/
+def makeSwitches (f : Flags) : TSwitches := ⟨f.bitwise, f.json, f.text, f.sql, f.sql && f.gorm⟩
+
+/-! ## table identifiers: `_<camelCase T>_values` … (internal/transfer ToCamelCaseGO; ASCII identifiers) -/
+
+def isUpperC (c : Char) : Bool := decide ('A' ≤ c) && decide (c ≤ 'Z')
+def isLowerC (c : Char) : Bool := decide ('a' ≤ c) && decide (c ≤ 'z')
+def toLowerC (c : Char) : Char := if isUpperC c then Char.ofNat (c.toNat + 32) else c
+def toUpperC (c : Char) : Char := if isLowerC c then Char.ofNat (c.toNat - 32) else c
+
+/-- `strings.Split(s, "_")` -/
+def splitUnderscore : Name → List Name
+  | [] => [[]]
+  | c :: r =>
+    match splitUnderscore r with
+    | [] => [[c]]            -- unreachable: the result is never empty
+    | p :: ps => if c = '_' then [] :: p :: ps else (c :: p) :: ps
+
+/-- `transfer.ToPascalCase`: split at `_`, upper-case the first byte of every part, join (the underscores are gone) -/
+def pascalCase (s : Name) : Name :=
+  (splitUnderscore s).flatMap (fun part => match part with | [] => [] | c :: r => toUpperC c :: r)
+
+/-- `transfer.ToCamelCaseGO` -/
+def camelGO (s : Name) : Name :=
+  if s.isEmpty then s
+  else if s = s.map toUpperC then s.map toLowerC
+  else
+    let p := pascalCase s
+    let i := (p.takeWhile isUpperC).length
+    if i ≤ 1 then (match p with | c :: r => toLowerC c :: r | [] => [])
+    else (p.take (i - 1)).map toLowerC ++ p.drop (i - 1)
+
 /-! ## runtime helpers (enumer.go) over the emitted tables -/
 
 def parseEnum (vm : List (Name × Int)) (s : Name) : Option Int := vm.lookup s
